@@ -67,6 +67,7 @@ func (ft *FuncTr) instr(b *ssa.BasicBlock, st *State, at *Term, in ssa.Instructi
 			return false, unsupported("store of non-term value")
 		}
 		ft.checkImmutableStore(x.Addr)
+		ft.checkBinds(at, x)
 		ft.requireGuard(st, at, x.Addr, true, x.Pos())
 		ft.store(st, at, pv, ty, v.T, x.Pos(), exprText(ft, x.Addr))
 	case *ssa.UnOp:
